@@ -29,12 +29,14 @@ EXHAUSTIVE = {"quick": True, "thorough": False}
 
 _rule = C03._rule  # pylint: disable=protected-access
 C1, C2, FAR = C03.C1, C03.C2, C03.FAR
+RANDOM_PER_SHARD = 600
 
 # rulesets with small neighbourhoods so that regions stay below half of small rings
 ROT_SINGLE = [[_rule("r0", C1, 2, "a"), _rule("r1", C2, 3, "a")]]
 ROT_PAIRS = [[_rule("r0", C2, 2, "a and b"), _rule("r1", C1, 3, "a and b"), _rule("r2", C2, 3, "a and b")]]
 ROT_SUPS = [[_rule("r0", C2, 2, "a"), _rule("r1", C1, 3, "b", sup=["r0"])]]
 ROT_EXTS = [[_rule("r0", C1, 2, "a", ext="c")]]
+ROT_NBH = [[_rule("r0", C1, 5, "a"), _rule("r1", C2, 4, "a")]]   # neighbourhoods that end exactly at a gene end
 ROT_CONDS = [[_rule("r0", C1, 2, "a or b"), _rule("r1", C2, 3, "minimum(2,[a,b])"), _rule("r2", C1, 3, "a and not c")]]
 
 ORD_RULESETS = [
@@ -59,6 +61,9 @@ def rotation_families(tier: str) -> Dict[str, Dict[str, Any]]:
                       "rulesets": ROT_CONDS},
         "rot-chain4": {"lens": (3, 4, 3, 5), "gaps": [0, C1, C2, FAR] if not wide else gaps,
                        "hits": [("a", "a", "a", "a")], "rulesets": ROT_SINGLE},
+        # genes without hits that end exactly where a neighbourhood ends (membership by one base)
+        "rot-nbh3": {"lens": (3, 4, 3), "gaps": [0, 1, 2, 3, FAR], "hits": [("", "a", ""), ("c", "a", "a")],
+                     "rulesets": ROT_NBH},
         # rings shorter than twice the cutoff (the search window becomes the whole record)
         "rot-tiny2": {"lens": (3, 3), "gaps": [0, 1, 2, 7, 8, 9, 10, 11, 12], "hits": [("a", "b")],
                       "rulesets": [[_rule("r0", 8, 1, "a and b")], [_rule("r0", 8, 1, "a")]]},
@@ -97,7 +102,7 @@ def ring_bases(fam: Dict[str, Any]) -> Iterator[Dict[str, Any]]:
                     yield case
 
 
-PARTS = {"rot-tiny2": 1, "rot-chain3": 8, "rot-pair3": 12, "rot-sup3": 10, "rot-ext3": 8, "rot-cond3": 10, "rot-chain4": 10,
+PARTS = {"rot-tiny2": 1, "rot-nbh3": 8, "rot-chain3": 8, "rot-pair3": 12, "rot-sup3": 10, "rot-ext3": 8, "rot-cond3": 10, "rot-chain4": 10,
          "ord3": 10, "ord2": 2}
 
 
@@ -148,6 +153,12 @@ def pair_label(base: Dict[str, Any], other: Dict[str, Any], only: Sequence[str] 
 ORDER_DEPENDENT = ("stale-cutoff-cache",)
 
 
+def crash_label(sub: Dict[str, Any]) -> str:
+    """ the input class of C03's no-unexpected-exception clause that the ruleset + record lies in """
+    labelled = known.label("no-unexpected-exception", known.Context(sub), {})
+    return "[crash:" + labelled.split("[", 1)[1] if "[" in labelled else ""
+
+
 def compare_rotation(base: Dict[str, Any], base_obs: model.Observed, cut: int
                      ) -> List[Tuple[str, bool, str]]:
     """ the clauses of the rotation half of C07 for one rotation of one base record """
@@ -156,7 +167,9 @@ def compare_rotation(base: Dict[str, Any], base_obs: model.Observed, cut: int
     suffix = pair_label(base, turned)
     out = []
     crashed = [o.error for o in (base_obs, obs) if o.error]
-    out.append(("rotation-no-exception" + suffix, not crashed, "; ".join(crashed)))
+    # a crash of both runs is the same outcome twice (property C03 reports the crash itself)
+    out.append(("rotation-no-exception" + suffix, len(crashed) != 1,
+                f"only one of the two runs fails: base: {base_obs.error}; origin at {cut}: {obs.error}"))
     if crashed:
         return out
     first, second = signature(base, base_obs), signature(turned, obs)
@@ -210,7 +223,12 @@ def compare_orders(case: Dict[str, Any]) -> List[Tuple[str, bool, str, Dict[str,
         suffix = pair_label(ref_sub, sub, ORDER_DEPENDENT) if case["circ"] else ""
         where = {"rule": name, "first": ref_names, "second": names}
         crashed = [o.error for o in (ref_obs, obs) if o.error]
-        out.append(("order-no-exception" + suffix, not crashed, "; ".join(crashed), where))
+        if len(crashed) == 1:
+            # one ruleset makes the detection fail as a whole: label by the crash class of C03, if any
+            suffix = crash_label(ref_sub if ref_obs.error else sub)
+        # a crash of both runs is the same outcome twice (property C03 reports the crash itself)
+        out.append(("order-no-exception" + suffix, len(crashed) != 1,
+                    f"only one of the two runs fails: {ref_names}: {ref_obs.error}; {names}: {obs.error}", where))
         if crashed:
             return
         one, two = rule_view(case, ref_obs, name), rule_view(case, obs, name)
@@ -292,17 +310,23 @@ def run_shard(shard: Dict[str, Any], run: Any) -> None:
         for index, base in enumerate(ring_bases(fam)):
             if index % shard["of"] == shard["part"]:
                 _rotation_base(base, run)
+                if run.out_of_time():
+                    return
         return
     if shard["kind"] == "order":
         fam = order_families(run.tier)[shard["fam"]]
         for index, case in enumerate(chk.family_cases(fam)):
             if index % shard["of"] == shard["part"]:
                 _order_case(case, run)
+                if run.out_of_time():
+                    return
         return
-    while not run.out_of_time():
+    done = 0
+    while done < RANDOM_PER_SHARD and not run.out_of_time():
         case = C03.random_case(run.rng)
         if not case or len(case["rules"]) > 3:
             continue
+        done += 1
         if case["circ"] and run.rng.random() < 0.6:
             cuts = sorted(run.rng.sample(range(1, case["L"]), min(6, case["L"] - 1)))
             _rotation_base(case, run, cuts)
@@ -334,6 +358,8 @@ ROOTS = {
     "C07-F5": "origin-spanning-gene-in-chain",
     "C07-F6": "gene-at-0-with-origin-spanning-gene",
     "C07-F7": "superior-overlaps-over-origin",
+    "C07-F8": "merged-cores-with-extenders",
+    "C07-F9": "superior-chain-over-origin",
 }
 
 
@@ -352,4 +378,20 @@ def _classifier(suffix: str) -> Any:
     return predicate
 
 
+def _crash_classifier(clause: str, case: Any) -> bool:
+    """ C07-F10: one of the two compared rulesets lies in a crash class of C03 """
+    if not clause.startswith("order-no-exception[crash:") or not isinstance(case, dict) or "base" not in case:
+        return False
+    base = case["base"]
+    where = case.get("at") or {}
+    by_name = {r["n"]: r for r in base["rules"]}
+    wanted = clause[len("order-no-exception"):]
+    for key in ("first", "second"):
+        sub = dict(base, rules=[by_name[n] for n in where.get(key, [])])
+        if sub["rules"] and crash_label(sub) == wanted:
+            return True
+    return False
+
+
 FINDING_CLASSES: Dict[str, Any] = {fid: _classifier(suffix) for fid, suffix in ROOTS.items()}
+FINDING_CLASSES["C07-F10"] = _crash_classifier
